@@ -165,9 +165,9 @@ Qed.
 
 Definition req_ok (r : sreq) : Prop := NoDup (map fst (sr_form r)) /\ sr_merged r = [].
 
-Lemma prepare_lookup c r k :
+Lemma prepare_lookup c v1 r k :
   NoDup (map fst (sr_form r)) -> sr_merged r = [] ->
-  lookup k (sr_form (prepare c r)) = lookup k (sr_form r) ++ lookup k c.
+  lookup k (sr_form (prepare c v1 r)) = lookup k (sr_form r) ++ lookup k c.
 Proof.
   intros ND M. unfold prepare. rewrite M. cbn [unmerge fold_left].
   destruct c as [|e c]; cbn [sr_form]; [cbn; now rewrite app_nil_r|].
@@ -176,16 +176,16 @@ Qed.
 
 (* sending a request a second time sets up the same data as the first time: the request's own
    plus the client's - nothing is lost, nothing doubled *)
-Theorem resend_same_data c r :
+Theorem resend_same_data c v1 v2 r :
   NoDup (map fst (sr_form r)) -> sr_merged r = [] -> NoDup (map fst c) ->
-  forall k, lookup k (sr_form (prepare c (prepare c r))) = lookup k (sr_form r) ++ lookup k c.
+  forall k, lookup k (sr_form (prepare c v2 (prepare c v1 r))) = lookup k (sr_form r) ++ lookup k c.
 Proof.
   intros ND M NC k. unfold prepare at 1.
-  assert (forall k, lookup k (unmerge (sr_merged (prepare c r)) (sr_form (prepare c r))) = lookup k (sr_form r)) as U.
+  assert (forall k, lookup k (unmerge (sr_merged (prepare c v1 r)) (sr_form (prepare c v1 r))) = lookup k (sr_form r)) as U.
   { intro k0. unfold prepare. rewrite M. cbn [unmerge fold_left].
     destruct c as [|e c]; cbn [sr_form sr_merged]; [reflexivity|].
     now apply unmerge_merge. }
-  assert (NoDup (map fst (unmerge (sr_merged (prepare c r)) (sr_form (prepare c r))))) as NU.
+  assert (NoDup (map fst (unmerge (sr_merged (prepare c v1 r)) (sr_form (prepare c v1 r))))) as NU.
   { apply unmerge_nodup. unfold prepare. rewrite M. cbn [unmerge fold_left].
     destruct c as [|e c]; cbn [sr_form]; [exact ND|now apply merge_form_nodup]. }
   destruct c as [|e c]; cbn [sr_form].
@@ -194,19 +194,19 @@ Proof.
 Qed.
 
 (* ... and the server therefore sees the same form data both times *)
-Theorem resend_same_body_data c r b1 b2 :
+Theorem resend_same_body_data c v1 v2 r b1 b2 :
   NoDup (map fst (sr_form r)) -> sr_merged r = [] -> NoDup (map fst c) ->
-  form_plan_of (sr_form (prepare c r)) [] (sr_ordered r) = FBody b1 ->
-  form_plan_of (sr_form (prepare c (prepare c r))) [] (sr_ordered r) = FBody b2 ->
+  form_plan_of (sr_form (prepare c v1 r)) [] (sr_ordered r) = FBody b1 ->
+  form_plan_of (sr_form (prepare c v2 (prepare c v1 r))) [] (sr_ordered r) = FBody b2 ->
   forall k, values_of k (parse_form b2) = values_of k (parse_form b1).
 Proof.
   intros ND M NC P1 P2 k.
-  assert (NoDup (map fst (sr_form (prepare c r)))) as N1.
+  assert (NoDup (map fst (sr_form (prepare c v1 r)))) as N1.
   { unfold prepare. rewrite M. cbn [unmerge fold_left].
     destruct c; cbn [sr_form]; [exact ND|now apply merge_form_nodup]. }
-  assert (NoDup (map fst (sr_form (prepare c (prepare c r))))) as N2.
+  assert (NoDup (map fst (sr_form (prepare c v2 (prepare c v1 r))))) as N2.
   { unfold prepare at 1.
-    assert (NoDup (map fst (unmerge (sr_merged (prepare c r)) (sr_form (prepare c r))))) by now apply unmerge_nodup.
+    assert (NoDup (map fst (unmerge (sr_merged (prepare c v1 r)) (sr_form (prepare c v1 r))))) by now apply unmerge_nodup.
     destruct c; cbn [sr_form]; [assumption|now apply merge_form_nodup]. }
   destruct (form_body_roundtrip _ [] _ _ N1 P1) as (_ & R1).
   destruct (form_body_roundtrip _ [] _ _ N2 P2) as (_ & R2).
@@ -218,7 +218,8 @@ Qed.
 
 Definition op_target (o : sop) : option nat :=
   match o with
-  | SReqAdd i _ | SReqSet i _ _ | SReqOrdered i _ | SReqBody i | SSend i | SSendQuiet i | SSendRetry i _ => Some i
+  | SReqAdd i _ | SReqSet i _ _ | SReqOrdered i _ | SReqBody i | SSend i | SSendQuiet i | SSendRetry i _
+  | SBegin i | SFinish i => Some i
   | SClientAdd _ | SCellSet _ => None
   end.
 
@@ -234,7 +235,7 @@ Theorem step_frame s o i j :
   ss_client (fst (sstep s o)) = ss_client s.
 Proof.
   intros T N. destruct o; cbn in T; inversion T; subst; cbn [sstep fst ss_reqs ss_client];
-    (split; [now apply upd_other|reflexivity]).
+    (split; [first [now apply upd_other|reflexivity]|reflexivity]).
 Qed.
 
 (* executing requests never changes the client's form data *)
@@ -245,10 +246,45 @@ Proof. intro H. destruct o; try reflexivity. exfalso. now apply (H f). Qed.
 (* every attempt marshals the payload as it is at that moment: nothing is kept from an earlier
    marshalling *)
 Theorem attempts_marshal_fresh s i v r :
-  r = prepare (ss_client s) (nth i (ss_reqs s) sreq0) ->
+  r = prepare (ss_client s) (ss_cell s) (nth i (ss_reqs s) sreq0) ->
   form_plan_of (sr_form r) [] (sr_ordered r) = FNone -> sr_body r = true ->
   snd (sstep s (SSendRetry i v)) = [OutMarshal i (ss_cell s); OutMarshal i v] /\
   snd (sstep s (SSend i)) = [OutMarshal i (ss_cell s)].
 Proof.
-  intros -> P B. cbn [sstep snd]. unfold emit. rewrite P, B. split; reflexivity.
+  intros -> P B. cbn [sstep snd]. unfold emit. cbn [resnap sr_form sr_ordered sr_body sr_snap].
+  rewrite P, B. unfold prepare. destruct (ss_client s); split; reflexivity.
+Qed.
+
+(* ---------- between set-up and write ---------- *)
+
+Fixpoint srun_state (s : sstate) (ops : list sop) : sstate :=
+  match ops with
+  | [] => s
+  | o :: t => srun_state (fst (sstep s o)) t
+  end.
+
+Definition other_request (i : nat) (o : sop) : Prop := exists j, op_target o = Some j /\ j <> i.
+
+(* whatever other requests do (setters, whole executions, retries that change the shared payload)
+   between the moment R_i's body was set up and the moment it is written, R_i sends what was set up *)
+Lemma nth_upd_same {A} (f : A -> A) d : forall l i, i < length l -> nth i (upd i f l) d = f (nth i l d).
+Proof.
+  induction l as [|x l IH]; intros i L; [cbn in L; lia|].
+  destruct i; cbn [upd nth]; [reflexivity|]. apply IH. cbn [length] in L. lia.
+Qed.
+
+Theorem interleaving_independent s i ops :
+  i < length (ss_reqs s) ->
+  Forall (other_request i) ops ->
+  let s1 := fst (sstep s (SBegin i)) in
+  snd (sstep (srun_state s1 ops) (SFinish i)) = snd (sstep s (SSend i)).
+Proof.
+  intros L H. cbn zeta.
+  assert (forall st, Forall (other_request i) ops ->
+            nth i (ss_reqs (srun_state st ops)) sreq0 = nth i (ss_reqs st) sreq0) as K.
+  { clear H. induction ops as [|o t IH]; intros st F; [reflexivity|].
+    inversion F as [|? ? (j & T & N) F']; subst. cbn [srun_state]. rewrite IH by exact F'.
+    now destruct (step_frame st o j i T N). }
+  cbn [sstep snd fst]. rewrite K by exact H. cbn [ss_reqs].
+  now rewrite nth_upd_same by exact L.
 Qed.
